@@ -19,8 +19,8 @@ Check C17_resolve_invariant : forall (value : Type) (obj_at : bytes -> N -> res 
     (member : bytes -> value -> N -> res value) (shift : N -> value -> value) (p f : bytes),
   (forall pos, obj_at (p ++ f) (lenN p + pos) = rmap (shift (lenN p)) (obj_at f pos)) ->
   (forall v i, member (p ++ f) (shift (lenN p) v) i = rmap (shift (lenN p)) (member f v i)) ->
-  lenN (p ++ f) < usize_max -> lenN p + lenN xr_header <= xr_header_window ->
-  forall t, offsets_small p t -> forall fuel id,
+  lenN (p ++ f) < usize_max ->
+  forall t fuel id,
   resolve_ref value obj_at member fuel (p ++ f) (lenN p) t id
   = rmap (shift (lenN p)) (resolve_ref value obj_at member fuel f 0 t id).
 Check C17_scan_invariant : forall (value : Type) (scan_slice : bytes -> bytes -> N -> list (res value))
@@ -29,4 +29,17 @@ Check C17_scan_invariant : forall (value : Type) (scan_slice : bytes -> bytes ->
   lenN (p ++ f) < usize_max -> lenN p + lenN xr_header <= xr_header_window ->
   forall items, scan value scan_slice f 0 = Ok items ->
   scan value scan_slice (p ++ f) (lenN p) = Ok (map (rmap (shift (lenN p))) items).
-Check C17_full_statement_refuted : ~ C17_full_statement.
+Check C17_full_statement_proved : C17_full_statement.
+Check C17_full_statement_proved : forall (value : Type) (obj_at : bytes -> N -> res value) (member : bytes -> value -> N -> res value)
+    (shift : N -> value -> value) (p f : bytes),
+  (forall pos, obj_at (p ++ f) (lenN p + pos) = rmap (shift (lenN p)) (obj_at f pos)) ->
+  (forall v i, member (p ++ f) (shift (lenN p) v) i = rmap (shift (lenN p)) (member f v i)) ->
+  lenN (p ++ f) < usize_max ->
+  forall t fuel id,
+  resolve_ref value obj_at member fuel (p ++ f) (lenN p) t id
+  = rmap (shift (lenN p)) (resolve_ref value obj_at member fuel f 0 t id).
+Check C17_resolve_no_panic : forall (value : Type) (obj_at : bytes -> N -> res value) (member : bytes -> value -> N -> res value),
+  (forall fl pos, no_panic (obj_at fl pos) \/ obj_at fl pos = OutOfFuel) ->
+  (forall fl v i, no_panic (member fl v i) \/ member fl v i = OutOfFuel) ->
+  forall fuel file start t id,
+  match resolve_ref value obj_at member fuel file start t id with Panic _ => False | _ => True end.
